@@ -175,6 +175,109 @@ let transform_tag e name s =
                         in
                         ((mk_call h ((mk_str n) :: [])), s0)
                    else (name, s)
+  | JNs (ns0, name0) ->
+    (match ns0 with
+     | IdName ns ->
+       (match name0 with
+        | IdName nm ->
+          ((mk_str
+             (app ns
+               (app ((Npos (Coq_xO (Coq_xI (Coq_xO (Coq_xI (Coq_xI
+                 Coq_xH)))))) :: []) nm))),
+            (add_diag (String ((Ascii (false, true, true, true, false, false,
+              true, false)), (String ((Ascii (true, false, false, false,
+              false, true, true, false)), (String ((Ascii (true, false, true,
+              true, false, true, true, false)), (String ((Ascii (true, false,
+              true, false, false, true, true, false)), (String ((Ascii (true,
+              true, false, false, true, true, true, false)), (String ((Ascii
+              (false, false, false, false, true, true, true, false)), (String
+              ((Ascii (true, false, false, false, false, true, true, false)),
+              (String ((Ascii (true, true, false, false, false, true, true,
+              false)), (String ((Ascii (true, false, true, false, false,
+              true, true, false)), (String ((Ascii (false, false, false,
+              false, false, true, false, false)), (String ((Ascii (false,
+              false, true, false, true, true, true, false)), (String ((Ascii
+              (true, false, false, false, false, true, true, false)), (String
+              ((Ascii (true, true, true, false, false, true, true, false)),
+              (String ((Ascii (true, true, false, false, true, true, true,
+              false)), (String ((Ascii (false, false, false, false, false,
+              true, false, false)), (String ((Ascii (true, false, false,
+              false, false, true, true, false)), (String ((Ascii (false,
+              true, false, false, true, true, true, false)), (String ((Ascii
+              (true, false, true, false, false, true, true, false)), (String
+              ((Ascii (false, false, false, false, false, true, false,
+              false)), (String ((Ascii (false, true, true, true, false, true,
+              true, false)), (String ((Ascii (true, true, true, true, false,
+              true, true, false)), (String ((Ascii (false, false, true,
+              false, true, true, true, false)), (String ((Ascii (false,
+              false, false, false, false, true, false, false)), (String
+              ((Ascii (true, true, false, false, true, true, true, false)),
+              (String ((Ascii (true, false, true, false, true, true, true,
+              false)), (String ((Ascii (false, false, false, false, true,
+              true, true, false)), (String ((Ascii (false, false, false,
+              false, true, true, true, false)), (String ((Ascii (true, true,
+              true, true, false, true, true, false)), (String ((Ascii (false,
+              true, false, false, true, true, true, false)), (String ((Ascii
+              (false, false, true, false, true, true, true, false)), (String
+              ((Ascii (true, false, true, false, false, true, true, false)),
+              (String ((Ascii (false, false, true, false, false, true, true,
+              false)), (String ((Ascii (false, true, true, true, false, true,
+              false, false)), (String ((Ascii (false, false, false, false,
+              false, true, false, false)), (String ((Ascii (false, true,
+              true, false, true, false, true, false)), (String ((Ascii (true,
+              false, true, false, true, true, true, false)), (String ((Ascii
+              (true, false, true, false, false, true, true, false)), (String
+              ((Ascii (true, true, true, false, false, true, false, false)),
+              (String ((Ascii (true, true, false, false, true, true, true,
+              false)), (String ((Ascii (false, false, false, false, false,
+              true, false, false)), (String ((Ascii (false, true, false,
+              true, false, false, true, false)), (String ((Ascii (true, true,
+              false, false, true, false, true, false)), (String ((Ascii
+              (false, false, false, true, true, false, true, false)), (String
+              ((Ascii (false, false, false, false, false, true, false,
+              false)), (String ((Ascii (false, false, true, false, false,
+              true, true, false)), (String ((Ascii (true, true, true, true,
+              false, true, true, false)), (String ((Ascii (true, false, true,
+              false, false, true, true, false)), (String ((Ascii (true, true,
+              false, false, true, true, true, false)), (String ((Ascii
+              (false, true, true, true, false, true, true, false)), (String
+              ((Ascii (true, true, true, false, false, true, false, false)),
+              (String ((Ascii (false, false, true, false, true, true, true,
+              false)), (String ((Ascii (false, false, false, false, false,
+              true, false, false)), (String ((Ascii (false, false, false,
+              true, false, true, true, false)), (String ((Ascii (true, false,
+              false, false, false, true, true, false)), (String ((Ascii
+              (false, true, true, false, true, true, true, false)), (String
+              ((Ascii (true, false, true, false, false, true, true, false)),
+              (String ((Ascii (false, false, false, false, false, true,
+              false, false)), (String ((Ascii (false, true, true, true,
+              false, true, true, false)), (String ((Ascii (true, false,
+              false, false, false, true, true, false)), (String ((Ascii
+              (true, false, true, true, false, true, true, false)), (String
+              ((Ascii (true, false, true, false, false, true, true, false)),
+              (String ((Ascii (true, true, false, false, true, true, true,
+              false)), (String ((Ascii (false, false, false, false, true,
+              true, true, false)), (String ((Ascii (true, false, false,
+              false, false, true, true, false)), (String ((Ascii (true, true,
+              false, false, false, true, true, false)), (String ((Ascii
+              (true, false, true, false, false, true, true, false)), (String
+              ((Ascii (false, false, false, false, false, true, false,
+              false)), (String ((Ascii (true, true, false, false, true, true,
+              true, false)), (String ((Ascii (true, false, true, false,
+              false, true, true, false)), (String ((Ascii (true, false, true,
+              true, false, true, true, false)), (String ((Ascii (true, false,
+              false, false, false, true, true, false)), (String ((Ascii
+              (false, true, true, true, false, true, true, false)), (String
+              ((Ascii (false, false, true, false, true, true, true, false)),
+              (String ((Ascii (true, false, false, true, false, true, true,
+              false)), (String ((Ascii (true, true, false, false, false,
+              true, true, false)), (String ((Ascii (true, true, false, false,
+              true, true, true, false)), (String ((Ascii (false, true, true,
+              true, false, true, false, false)),
+              EmptyString))))))))))))))))))))))))))))))))))))))))))))))))))))))))))))))))))))))))))))))))))))))))))))))))))))))))))))))))))))))))))))))))))))))))))))))))))))))))))
+              s))
+        | _ -> (name, s))
+     | _ -> (name, s))
   | _ -> (name, s)
 
 (** val get_pragma : env -> st -> node * st **)
@@ -969,13 +1072,11 @@ let step_directive is_comp a name value =
 
 (** val plain_attr_value : node -> node option **)
 
-let plain_attr_value value = match value with
+let plain_attr_value = function
 | NScalar j -> (match j with
                 | JNull -> Some (Bool true)
                 | _ -> None)
 | Str (v, _) -> Some (mk_str (transform_text v))
-| JsxE (_, _, _, _, _, _) -> Some value
-| JsxF _ -> Some value
 | JExprC e -> Some e
 | _ -> None
 
@@ -7428,18 +7529,151 @@ let lower_el e =
              let (r', s1) = lower_children r s0 in ((app o0 r'), s1))
       in lower_children
     in
+    let lower_attr_values =
+      let rec lower_attr_values l s0 =
+        match l with
+        | [] -> ([], s0)
+        | a :: r ->
+          (match a with
+           | NScalar _ ->
+             let (r', s1) = lower_attr_values r s0 in ((a :: r'), s1)
+           | NArr _ ->
+             let (r', s1) = lower_attr_values r s0 in ((a :: r'), s1)
+           | NObj _ ->
+             let (r', s1) = lower_attr_values r s0 in ((a :: r'), s1)
+           | Field (_, _) ->
+             let (r', s1) = lower_attr_values r s0 in ((a :: r'), s1)
+           | Ident (_, _, _) ->
+             let (r', s1) = lower_attr_values r s0 in ((a :: r'), s1)
+           | BIdent (_, _, _, _) ->
+             let (r', s1) = lower_attr_values r s0 in ((a :: r'), s1)
+           | IdName _ ->
+             let (r', s1) = lower_attr_values r s0 in ((a :: r'), s1)
+           | Str (_, _) ->
+             let (r', s1) = lower_attr_values r s0 in ((a :: r'), s1)
+           | Num (_, _) ->
+             let (r', s1) = lower_attr_values r s0 in ((a :: r'), s1)
+           | Bool _ ->
+             let (r', s1) = lower_attr_values r s0 in ((a :: r'), s1)
+           | Null -> let (r', s1) = lower_attr_values r s0 in ((a :: r'), s1)
+           | Arr _ -> let (r', s1) = lower_attr_values r s0 in ((a :: r'), s1)
+           | Elem (_, _) ->
+             let (r', s1) = lower_attr_values r s0 in ((a :: r'), s1)
+           | Hole -> let (r', s1) = lower_attr_values r s0 in ((a :: r'), s1)
+           | Obj _ -> let (r', s1) = lower_attr_values r s0 in ((a :: r'), s1)
+           | KV (_, _) ->
+             let (r', s1) = lower_attr_values r s0 in ((a :: r'), s1)
+           | Computed _ ->
+             let (r', s1) = lower_attr_values r s0 in ((a :: r'), s1)
+           | Spread _ ->
+             let (r', s1) = lower_attr_values r s0 in ((a :: r'), s1)
+           | Call (_, _, _, _, _) ->
+             let (r', s1) = lower_attr_values r s0 in ((a :: r'), s1)
+           | Arrow (_, _, _, _, _, _, _) ->
+             let (r', s1) = lower_attr_values r s0 in ((a :: r'), s1)
+           | Assign (_, _, _) ->
+             let (r', s1) = lower_attr_values r s0 in ((a :: r'), s1)
+           | Paren _ ->
+             let (r', s1) = lower_attr_values r s0 in ((a :: r'), s1)
+           | Cond (_, _, _) ->
+             let (r', s1) = lower_attr_values r s0 in ((a :: r'), s1)
+           | Bin (_, _, _) ->
+             let (r', s1) = lower_attr_values r s0 in ((a :: r'), s1)
+           | Unary (_, _) ->
+             let (r', s1) = lower_attr_values r s0 in ((a :: r'), s1)
+           | Member (_, _) ->
+             let (r', s1) = lower_attr_values r s0 in ((a :: r'), s1)
+           | Block (_, _) ->
+             let (r', s1) = lower_attr_values r s0 in ((a :: r'), s1)
+           | JsxE (_, _, _, _, _, _) ->
+             let (r', s1) = lower_attr_values r s0 in ((a :: r'), s1)
+           | JsxF _ ->
+             let (r', s1) = lower_attr_values r s0 in ((a :: r'), s1)
+           | JAttr (nm, v) ->
+             (match v with
+              | NScalar _ ->
+                let (r', s1) = lower_attr_values r s0 in ((a :: r'), s1)
+              | NArr _ ->
+                let (r', s1) = lower_attr_values r s0 in ((a :: r'), s1)
+              | NObj _ ->
+                let (r', s1) = lower_attr_values r s0 in ((a :: r'), s1)
+              | Field (_, _) ->
+                let (r', s1) = lower_attr_values r s0 in ((a :: r'), s1)
+              | Ident (_, _, _) ->
+                let (r', s1) = lower_attr_values r s0 in ((a :: r'), s1)
+              | BIdent (_, _, _, _) ->
+                let (r', s1) = lower_attr_values r s0 in ((a :: r'), s1)
+              | IdName _ ->
+                let (r', s1) = lower_attr_values r s0 in ((a :: r'), s1)
+              | Str (_, _) ->
+                let (r', s1) = lower_attr_values r s0 in ((a :: r'), s1)
+              | Num (_, _) ->
+                let (r', s1) = lower_attr_values r s0 in ((a :: r'), s1)
+              | Bool _ ->
+                let (r', s1) = lower_attr_values r s0 in ((a :: r'), s1)
+              | Null ->
+                let (r', s1) = lower_attr_values r s0 in ((a :: r'), s1)
+              | Arr _ ->
+                let (r', s1) = lower_attr_values r s0 in ((a :: r'), s1)
+              | Elem (_, _) ->
+                let (r', s1) = lower_attr_values r s0 in ((a :: r'), s1)
+              | Hole ->
+                let (r', s1) = lower_attr_values r s0 in ((a :: r'), s1)
+              | Obj _ ->
+                let (r', s1) = lower_attr_values r s0 in ((a :: r'), s1)
+              | KV (_, _) ->
+                let (r', s1) = lower_attr_values r s0 in ((a :: r'), s1)
+              | Computed _ ->
+                let (r', s1) = lower_attr_values r s0 in ((a :: r'), s1)
+              | Spread _ ->
+                let (r', s1) = lower_attr_values r s0 in ((a :: r'), s1)
+              | Call (_, _, _, _, _) ->
+                let (r', s1) = lower_attr_values r s0 in ((a :: r'), s1)
+              | Arrow (_, _, _, _, _, _, _) ->
+                let (r', s1) = lower_attr_values r s0 in ((a :: r'), s1)
+              | Assign (_, _, _) ->
+                let (r', s1) = lower_attr_values r s0 in ((a :: r'), s1)
+              | Paren _ ->
+                let (r', s1) = lower_attr_values r s0 in ((a :: r'), s1)
+              | Cond (_, _, _) ->
+                let (r', s1) = lower_attr_values r s0 in ((a :: r'), s1)
+              | Bin (_, _, _) ->
+                let (r', s1) = lower_attr_values r s0 in ((a :: r'), s1)
+              | Unary (_, _) ->
+                let (r', s1) = lower_attr_values r s0 in ((a :: r'), s1)
+              | Member (_, _) ->
+                let (r', s1) = lower_attr_values r s0 in ((a :: r'), s1)
+              | Block (_, _) ->
+                let (r', s1) = lower_attr_values r s0 in ((a :: r'), s1)
+              | JsxE (_, _, _, _, _, _) ->
+                if is_directive a
+                then let (r', s1) = lower_attr_values r s0 in ((a :: r'), s1)
+                else let (x, s1) = lower_el0 v s0 in
+                     let a' = JAttr (nm, (JExprC x)) in
+                     let (r', s2) = lower_attr_values r s1 in ((a' :: r'), s2)
+              | JsxF _ ->
+                if is_directive a
+                then let (r', s1) = lower_attr_values r s0 in ((a :: r'), s1)
+                else let (x, s1) = lower_el0 v s0 in
+                     let a' = JAttr (nm, (JExprC x)) in
+                     let (r', s2) = lower_attr_values r s1 in ((a' :: r'), s2)
+              | _ -> let (r', s1) = lower_attr_values r s0 in ((a :: r'), s1))
+           | _ -> let (r', s1) = lower_attr_values r s0 in ((a :: r'), s1))
+      in lower_attr_values
+    in
     (match n with
-     | JsxE (name, attrs, _, _, children, _) ->
+     | JsxE (name, attrs0, _, _, children, _) ->
        let s0 =
          if o.o_optimize
          then set_slot_stack (app s.slot_stack (false :: [])) s
          else s
        in
        let is_comp = is_component e name in
-       let ar = transform_attrs e attrs is_comp s0 in
-       let (tag, s1) = transform_tag e name ar.r_st in
-       let (elems, s2) = lower_children children s1 in
-       let (ch, s3) = finish_children e elems is_comp ar.r_slots s2 in
+       let (attrs, s1) = lower_attr_values attrs0 s0 in
+       let ar = transform_attrs e attrs is_comp s1 in
+       let (tag, s2) = transform_tag e name ar.r_st in
+       let (elems, s3) = lower_children children s2 in
+       let (ch, s4) = finish_children e elems is_comp ar.r_slots s3 in
        let hints =
          if o.o_optimize
          then app
@@ -7453,14 +7687,14 @@ let lower_el e =
                  | None -> [])
          else []
        in
-       let (callee, s4) = get_pragma e s3 in
+       let (callee, s5) = get_pragma e s4 in
        let call =
          mk_call callee (app (tag :: (ar.r_attrs :: (ch :: []))) hints)
        in
        (match ar.r_dirs with
-        | [] -> (call, s4)
+        | [] -> (call, s5)
         | d :: l ->
-          let (wd, s5) =
+          let (wd, s6) =
             import_from_vue (String ((Ascii (true, true, true, false, true,
               true, true, false)), (String ((Ascii (true, false, false, true,
               false, true, true, false)), (String ((Ascii (false, false,
@@ -7477,10 +7711,10 @@ let lower_el e =
               ((Ascii (false, true, true, false, true, true, true, false)),
               (String ((Ascii (true, false, true, false, false, true, true,
               false)), (String ((Ascii (true, true, false, false, true, true,
-              true, false)), EmptyString)))))))))))))))))))))))))))) s4
+              true, false)), EmptyString)))))))))))))))))))))))))))) s5
           in
-          let (ds, s6) = build_directives (d :: l) name attrs s5 in
-          ((mk_call wd (call :: ((Arr ds) :: []))), s6))
+          let (ds, s7) = build_directives (d :: l) name attrs s6 in
+          ((mk_call wd (call :: ((Arr ds) :: []))), s7))
      | JsxF children ->
        let s0 =
          if o.o_optimize
